@@ -566,7 +566,7 @@ pub fn run_c06_b(ctx: &Ctx) -> Outcome {
         for (ops, policy, r) in &res {
             judge_c06(&mut out, ops, *policy, r);
         }
-        if out.violations.len() >= 4 {
+        if fw::stop_early(&mut out) {
             out.note("stopped_early_after_violations", json!(true));
             break;
         }
@@ -697,7 +697,7 @@ pub fn run_c13_b(ctx: &Ctx) -> Outcome {
         for (ops, max, interval, r) in &res {
             judge_c13(&mut out, ops, *max, *interval, r);
         }
-        if out.violations.len() >= 4 {
+        if fw::stop_early(&mut out) {
             out.note("stopped_early_after_violations", json!(true));
             break;
         }
